@@ -64,8 +64,33 @@ let cut_kind inp =
 let me (k, p) = (z_of_int k, z_of_int p)
 let em (k, p) = (int_of_z k, int_of_z p)
 
+(* Z <n>: Set on heapq.Queue[struct{}] of n elements, the generated child-index expression
+   evaluated at Go's int width (M.zset64) or with unbounded integers (M.zset_ideal) *)
+let z_arg rest =
+  if rest = "" || String.length rest > 19 || not (String.for_all (fun c -> c >= '0' && c <= '9') rest) then None
+  else Some (z_of_string rest)
+let zres_str = function
+  | M.ZOk n -> "ok " ^ string_of_z n
+  | M.ZIndexPanic i -> "PANIC:index[" ^ string_of_z i ^ "]"
+  | M.ZRefused -> "?"
+let eval_z (f : M.z -> M.zres) rest =
+  match z_arg rest with
+  | None -> "?"
+  | Some n ->
+    if M.z_refused n then "?" else
+    let r = zres_str (f n) in
+    (* for small n the list model itself (Set of n equal elements under the all-tie comparison) must agree *)
+    if M.z_small n then begin
+      let k = int_of_z n in
+      let l = List.init k (fun _ -> (z_of_int 0, z_of_int 0)) in
+      match M.q_step M.current_variant (M.q_new (z_of_int 6)) (M.OSet l) with
+      | M.Ok (q', _) when List.length (M.q_data q') = k -> r
+      | _ -> "MODEL-DISAGREES"
+    end else r
+
 let eval_with (v : M.variant) (inp : string) : string =
   match cut_kind inp with
+  | ("Z", rest) -> eval_z M.zset64 rest
   | ("S", rest) ->
     if rest = "" then "?" else
     (match dir_opt (String.sub rest 0 1), elems_opt (String.sub rest 1 (String.length rest - 1)) with
@@ -331,6 +356,9 @@ let check prop inp out : string option =
   taint_f1 := false; taint_f2 := false;
   try
     (match cut_kind inp with
+     | ("Z", rest) ->
+       if prop <> "C06" && out <> "?" && out <> "ok " ^ rest then
+         failf "Set on %s elements of a zero-size type: %s (Set must leave a valid heap of that many elements)" rest out
      | ("S", rest) -> if prop <> "C06" then check_sort rest out
      | ("H", rest) -> check_history prop rest out
      | _ -> ());
@@ -344,11 +372,26 @@ let check prop inp out : string option =
    so such a failure is something new), and (3) the model with the defect repaired satisfies the
    property on the input. *)
 let known_f1 = ref 0 and known_f2 = ref 0 and suppressed_f1 = ref 0 and suppressed_f2 = ref 0
+let known_f14 = ref 0
+
+(* Known finding F14 (pushDown's child index 2*i+1 overflows int beyond 2^62 elements): only when
+   the queue is that long, the generated expression evaluated with 64-bit wrap-around reproduces
+   the implementation's panic on this very input, and with unbounded integers the model satisfies
+   the property on it. *)
+let spec_z prop inp rest out reason =
+  match z_arg rest with
+  | Some n when M.z_above_bound n
+                && eval_z M.zset64 rest = out
+                && check prop inp (eval_z M.zset_ideal rest) = None ->
+    incr known_f14;
+    if !known_f14 <= 5 then Some (reason ^ " known=F14") else None
+  | _ -> Some reason
 let () = at_exit (fun () -> Printf.printf "KNOWN-SUPPRESSED F1=%d F2=%d\n" !suppressed_f1 !suppressed_f2)
 
 let spec prop inp out =
   match check prop inp out with
   | None -> None
+  | Some reason when fst (cut_kind inp) = "Z" -> spec_z prop inp (snd (cut_kind inp)) out reason
   | Some reason ->
     let t1 = !taint_f1 and t2 = !taint_f2 in
     if eval_with M.pinned inp <> out then Some reason
